@@ -4,8 +4,8 @@
 # without the patch), runs the property's quick check against it, and stores everything under /verif/seeded/<seed-name>/.
 set -u
 PID=$1; NAME=$2; shift 2; EXTRA="$@"
-SRC=/tmp/sa/$PID/_seed
-[ -f $SRC/patch.diff ] || git -C /tmp/sa/$PID diff -- puan > $SRC/patch.diff
+SRC=${SEED_ROOT:-/tmp/sa}/$PID/_seed
+[ -f $SRC/patch.diff ] || git -C ${SEED_ROOT:-/tmp/sa}/$PID diff -- puan > $SRC/patch.diff
 [ -s $SRC/patch.diff ] || { echo "no patch"; exit 2; }
 OUT=/verif/seeded/$NAME; mkdir -p $OUT
 cp $SRC/patch.diff $OUT/patch.diff; cp $SRC/demo.py $OUT/demo.py 2>/dev/null; cp $SRC/NOTES.md $OUT/NOTES.md 2>/dev/null
